@@ -36,11 +36,25 @@ INT = 'dadi.Integration'
 WORDS = {1: 'one_pop', 2: 'two_pops', 3: 'three_pops', 4: 'four_pops', 5: 'five_pops'}
 
 
-def c_return_rat(cf, env=None):
+_C_FUNCS = {}
+
+
+def c_return_rat(cf, env=None, _depth=0):
+    """the single return expression of a C function as a rational function; calls of other single-return functions of the program
+    (Vfunc_beta written as Vfunc(x, nu) * ...) are replaced by their own return expressions"""
     rets = [s for s in cf.body if isinstance(s, CReturn)]
     if len(rets) != 1 or len(cf.body) != 1:
         raise AnalysisError('C function %s is not a single return expression' % cf.name)
-    return Translator(env or {}).tr(rets[0].value)
+
+    def call_hook(T_, e, f):
+        callee = _C_FUNCS.get(f)
+        if callee is None or callee is cf or _depth > 3 or len(callee.params) != len(e.args) or any('*' in pt for pt, _ in callee.params):
+            return None
+        crets = [s_ for s_ in callee.body if isinstance(s_, CReturn)]
+        if len(crets) != 1 or len(callee.body) != 1:
+            return None
+        return c_return_rat(callee, {pn: T_.tr(a) for (pt, pn), a in zip(callee.params, e.args)}, _depth + 1)
+    return Translator(env or {}, call_hook=call_hook).tr(rets[0].value)
 
 
 def py_return_rat(fn, env=None):
@@ -164,6 +178,8 @@ def split_abc(ups, names=('a', 'b', 'c')):
 
 
 def run_shared(rep, prog, cprog):
+    _C_FUNCS.clear()
+    _C_FUNCS.update(cprog.funcs)
     im = prog.mod(INT)
     shared = 'dadi/integration_shared.c'
     rep.saw_file(shared)
